@@ -1,3 +1,5 @@
+import NrDaemon.Props.Reviewed
+import NrDaemon.Gen.Skeleton
 import NrDaemon.Model.Proc
 import NrDaemon.Gen.SwapTable
 import NrDaemon.Props.C07
@@ -261,3 +263,12 @@ theorem C02_metric_attempts_bounded_all_histories (max limit : Nat) (evs : List 
     | nil => intro s h; exact h
     | cons e es ih => intro s h; exact ih _ (step s e h)
   exact key evs _ ⟨by simp [GM.init, mtCont, MTG.new], by simp [GM.init]⟩
+
+
+/-! ## Ties to the current source: the functions transcribed by the model have not changed since they were reviewed (`Props/Reviewed.lean`) -/
+
+/-- **C02 (tie).**  `metricsMergeFailed`: attempt counter and limit of a carried-over metric table. -/
+theorem C02_metrics_merge_failed_source_tied : Gen.Skeleton.metricsMergeFailed = Reviewed.metricsMergeFailed := rfl
+
+/-- **C02 (tie).**  `eventsMergeFailed`: attempt counter and limit of a carried-over reservoir. -/
+theorem C02_events_merge_failed_source_tied : Gen.Skeleton.eventsMergeFailed = Reviewed.eventsMergeFailed := rfl
